@@ -52,6 +52,8 @@ def fam_loops():
     out.append(("lp_while_continue", _loop("cnt = 0\nacc = 0\nwhile cnt < 4:\n    cnt = cnt + 1\n    if cnt == d0.Setting:\n        continue\n    acc = acc + cnt\nd1.Setting = acc")))
     out.append(("lp_list", _loop("acc = 0\nfor val in [3, 5, 9]:\n    acc = acc + val\n    d0.Setting = acc")))
     out.append(("lp_list_index", _loop("vals = [4, 8, 15, 16]\nvi = d0.Setting\nif vi >= 0 and vi < 4:\n    d1.Setting = vals[vi]\nelse:\n    d1.Setting = 0 - 1")))
+    out.append(("lp_siblings", _loop("vn = d0.Setting\nacc = 0\nfor ia in range(2):\n    for ib in range(2):\n        tx = ib + vn\n        acc = acc + tx\n    for ic in range(2):\n        ty = ic * 2\n        acc = acc + ty + ia\nd1.Setting = acc")))
+    out.append(("lp_alias_copy", _loop("va = d0.Setting\nvb = va\nvc = d1.Setting + 1\nvd = vc * 2\nd2.Setting = vb + vd")))
     out.append(("lp_carried", _loop("acc = d0.Setting\nprev = 1\nfor idx in range(3):\n    nxt = acc + prev\n    prev = acc\n    acc = nxt\nd1.Setting = acc + prev")))
     return out
 
@@ -75,6 +77,8 @@ def fam_functions():
     out.append(("fn_unused_param", HEADER + "def fa(xa, xb, xc):\n    return xa * 10 + xc\ndef fb(xa):\n    return fa(xa, 7, 3) + fa(2, xa, xa)\nwhile True:\n    d1.Setting = fb(d0.Setting) + fa(1, 2, d0.Setting)\n    yield_()\n"))
     out.append(("fn_early_inner", HEADER + "def fa(xa):\n    return xa + 1\ndef fb(xa):\n    vt = fa(xa)\n    if vt > 1:\n        return vt\n    d2.Setting = vt\n    return fa(vt) * 2\nwhile True:\n    d1.Setting = fb(d0.Setting)\n    d3.Setting = fb(1)\n    yield_()\n"))
     out.append(("fn_early_void_inner", HEADER + "def fa(xa):\n    d1.Setting = xa\ndef fb(xa):\n    if xa < 1:\n        return\n    fa(xa)\n    if xa > 1:\n        return\n    fa(xa + 5)\nwhile True:\n    fb(d0.Setting)\n    fb(d2.Setting)\n    yield_()\n"))
+    out.append(("fn_global_late", HEADER + "def fa(xa):\n    global total\n    total = total + xa\ndef fb(xa):\n    global total\n    total = total * 2 + xa\ntotal = 100\nwhile True:\n    fa(d0.Setting)\n    vt = d1.Setting * 3 + 1\n    vu = vt * 2\n    fb(vu)\n    d2.Setting = total + vt\n    yield_()\n"))
+    out.append(("fn_nested_bound", HEADER + "def area(wa, ha):\n    acc = 0\n    for ia in range(wa):\n        for ib in range(ha):\n            acc = acc + ia + 1\n    return acc\nwhile True:\n    d1.Setting = area(d0.Setting, 2) + area(2, d0.Setting)\n    yield_()\n"))
     out.append(("fn_uncalled", HEADER + "def fa(xa):\n    return xa + 1\ndef fnever(xa):\n    d3.Setting = xa\n    return 0\nwhile True:\n    d1.Setting = fa(d0.Setting)\n    yield_()\n"))
     return out
 
